@@ -203,7 +203,7 @@ impl ValueSetJwsKeyRs256 {
         self.set.insert(k)
     }
 
-    pub fn from_dbvs2(data: &[Vec<u8>]) -> Result<ValueSet, OperationError> {
+    pub fn from_dbvs2(data: &[Zeroizing<Vec<u8>>]) -> Result<ValueSet, OperationError> {
         let set = data
             .iter()
             .map(|b| {
